@@ -1,22 +1,49 @@
 (* C10 — a compiled query's string form recompiles to an equivalent query.
-   Statements only; proofs live in proofs/PrintParseProofs.v (parser), proofs/PrintLexProofs.v
-   (lexer), proofs/RoundTrip.v and proofs/NormProofs.v.
+   Statements only; proofs live in proofs/PrintLexProofs.v (lexer half), proofs/PrintParseProofs.v
+   (parser half), proofs/NormProofs.v (normal form) and proofs/RoundTrip.v (assembly).
 
-   Serialize.query_text is the string form; TokPrint.query_toks the token sequence it is made
-   of; TokPrint.norm_query what reparsing yields (a selector that stood alone at path level
-   comes back as a one-element bracketed list, an omitted slice step as 1, a float as the float
-   its repr denotes).  The round trip is split at the token level:
+   Serialize.query_text is the string form (str(compiled query)); TokPrint.query_toks the token
+   sequence it is made of; TokPrint.norm_query what reparsing yields (a selector that stood alone
+   at path level comes back as a one-element bracketed list, an omitted slice step as 1, a float
+   as the float its repr denotes).  The round trip is split at the token level:
        tokenize (query_text q) = query_toks q            C10_lex
        compile_tokens (query_toks q) = Ok (norm_query q)  C10_parse
-   and norm_query is shown to change neither the results nor the string form. *)
-From JP Require Import Base Json Syntax Lex Parse Eval Serialize TokPrint Printable Gate
-                       NormProofs PrintParseProofs PrintLexProofs RoundTrip.
+   and norm_query is shown to change neither the results nor the string form.
 
-(* the string form of a compiled query, as tokens, parses back to its normal form *)
+   Domain.  NormDomain.c10_domain E re_ok q = gate (C07) && printable && reparsable && floats_stable:
+   the invariants of what Parser.parse builds.  C10_compiled_in_domain_partial shows that every
+   compiled query is in it up to the two float conditions floats_ok / floats_stable (the repr of a
+   float literal reads back, to a float with the same repr), which are boolean, extracted, and
+   evaluated by the correspondence on every compiled query of every run ("_partial": they are
+   not derived from "was parsed", because the model of repr(float) covers decimal literals of at
+   most 15 significant digits).  The statements that are false without those domain conditions
+   are kept as refutations at the end. *)
+From JP Require Import Base Json Syntax Lex Parse Eval Serialize TokPrint Printable Reparsable Gate
+                       NormDomain NormProofs PrintParseProofs PrintLexProofs RoundTrip.
+
+(* headline: in the default environment, the string form of a compiled query compiles, to a query
+   that returns the same matches on every document and filter context, whose string form is the
+   same text (fixed point), and which is again in the domain *)
+Theorem C10_string_form :
+  forall re_ok (text : ustr) (q : query) (t : ustr),
+    compile default_env re_ok text = Ok q ->
+    floats_ok q = true -> floats_stable q = true ->
+    query_text default_env q = Ok t ->
+    exists q',
+      compile default_env re_ok t = Ok q' /\
+      (forall rf rs d ctx, compound_finditer default_env rf rs q' d ctx = compound_finditer default_env rf rs q d ctx) /\
+      query_text default_env q' = Ok t /\
+      c10_domain default_env re_ok q' = true.
+Proof. exact RoundTrip.string_form. Qed.
+Print Assumptions C10_string_form.
+
+(* the string form of a query in the domain, as tokens, parses back to its normal form (any
+   environment: the parser sees token kinds, not spellings) *)
 Theorem C10_parse :
   forall (E : env) re_ok (q : query) (ts : list token),
     e_well_typed E = true -> e_unicode_escape E = true ->
     gate_query (e_min_index E) (e_max_index E) q = true -> printable re_ok q = true ->
+    reparsable E q = true ->
     query_toks E q = Ok ts ->
     compile_tokens E re_ok ts = Ok (norm_query q).
 Proof. exact PrintParseProofs.parse_print. Qed.
@@ -25,23 +52,23 @@ Print Assumptions C10_parse.
 (* the lexer reads the string form as exactly those tokens *)
 Theorem C10_lex :
   forall (E : env) re_ok (q : query) (t : ustr) (ts : list token),
-    default_tokens E -> printable re_ok q = true ->
+    default_tokens E -> printable re_ok q = true -> reparsable E q = true ->
     query_text E q = Ok t -> query_toks E q = Ok ts ->
     tokenize E t = ts.
-Proof. exact PrintLexProofs.lex_print. Qed.
+Proof. exact PrintLexProofs.lex_print_reparsable. Qed.
 Print Assumptions C10_lex.
 
 (* hence: the string form compiles, to the normal form *)
 Theorem C10_roundtrip :
   forall (E : env) re_ok (q : query) (t : ustr),
     default_tokens E -> e_well_typed E = true -> e_unicode_escape E = true ->
-    gate_query (e_min_index E) (e_max_index E) q = true -> printable re_ok q = true ->
+    c10_domain E re_ok q = true ->
     query_text E q = Ok t ->
     compile E re_ok t = Ok (norm_query q).
 Proof. exact RoundTrip.roundtrip. Qed.
 Print Assumptions C10_roundtrip.
 
-(* the normal form returns the same matches on every document ... *)
+(* the normal form returns the same matches on every document (no side condition) ... *)
 Theorem C10_norm_equiv :
   forall (E : env) rf rs (q : query) (d ctx : json),
     compound_finditer E rf rs (norm_query q) d ctx = compound_finditer E rf rs q d ctx.
@@ -49,34 +76,81 @@ Proof. exact NormProofs.norm_equiv. Qed.
 Print Assumptions C10_norm_equiv.
 
 (* ... has the same string form (so the string form is a fixed point) ... *)
-Theorem C10_norm_text :
-  forall (E : env) (q : query), query_text E (norm_query q) = query_text E q.
-Proof. exact NormProofs.norm_text. Qed.
-Print Assumptions C10_norm_text.
+Theorem C10_fixed_point :
+  forall (E : env) re_ok (q : query) (t : ustr),
+    c10_domain E re_ok q = true ->
+    query_text E q = Ok t -> query_text E (norm_query q) = Ok t.
+Proof. exact RoundTrip.fixed_point. Qed.
+Print Assumptions C10_fixed_point.
 
-(* ... and is itself printable, gated and normal *)
-Theorem C10_norm_stable :
+(* ... and is itself in the domain, and normal *)
+Theorem C10_domain_stable :
   forall (E : env) re_ok (q : query),
-    gate_query (e_min_index E) (e_max_index E) q = true -> printable re_ok q = true ->
-    gate_query (e_min_index E) (e_max_index E) (norm_query q) = true /\
-    printable re_ok (norm_query q) = true /\
-    norm_query (norm_query q) = norm_query q.
-Proof. exact NormProofs.norm_stable. Qed.
-Print Assumptions C10_norm_stable.
+    in_range (e_min_index E) (e_max_index E) 1%Z = true ->
+    e_well_typed E = true -> e_unicode_escape E = true -> default_tokens E ->
+    c10_domain E re_ok q = true ->
+    forall t, query_text E q = Ok t ->
+    c10_domain E re_ok (norm_query q) = true /\ norm_query (norm_query q) = norm_query q.
+Proof. exact RoundTrip.domain_stable. Qed.
+Print Assumptions C10_domain_stable.
 
-(* every query the parser accepts is printable (so the theorems above apply to "every query the
-   environment accepts") *)
-Theorem C10_compiled_printable :
+(* every query the parser accepts is in the domain, up to the two float conditions *)
+Theorem C10_compiled_in_domain_partial :
   forall (E : env) re_ok (text : ustr) (q : query),
-    compile E re_ok text = Ok q -> printable re_ok q = true.
-Proof. exact PrintParseProofs.compiled_printable. Qed.
-Print Assumptions C10_compiled_printable.
+    in_range (e_min_index E) (e_max_index E) 1%Z = true -> e_well_typed E = true ->
+    compile E re_ok text = Ok q ->
+    floats_ok q = true -> floats_stable q = true ->
+    c10_domain E re_ok q = true.
+Proof. exact RoundTrip.compiled_domain_partial. Qed.
+Print Assumptions C10_compiled_in_domain_partial.
+
+(* the shape part of the domain is proved for every compiled query outright *)
+Theorem C10_compiled_reparsable :
+  forall (E : env) re_ok (text : ustr) (q : query),
+    in_range (e_min_index E) (e_max_index E) 1%Z = true ->
+    compile E re_ok text = Ok q -> reparsable E q = true.
+Proof. exact PrintParseProofs.compiled_reparsable. Qed.
+Print Assumptions C10_compiled_reparsable.
+
+(* a float reread from its repr denotes the same number (used by C10_norm_equiv; proved outright) *)
+Theorem C10_float_reread_value :
+  forall n t n', float_repr n = Ok t -> parse_float_literal t = Ok (FFloat n') -> num_eqb n n' = true.
+Proof. exact FloatRepr.float_reread_value. Qed.
+Print Assumptions C10_float_reread_value.
+
+(* --- why the domain conditions are there: the unconditional statements are false ------------- *)
+(* a bare index selector followed by ".." (never built by the parser) prints as "$5..", which
+   the lexer reads as the float "5." *)
+Theorem C10_lex_without_shape_refuted :
+  ~ (forall (E : env) re_ok (q : query) (t : ustr) (ts : list token),
+       default_tokens E -> printable re_ok q = true ->
+       query_text E q = Ok t -> query_toks E q = Ok ts -> tokenize E t = ts).
+Proof. exact PrintLexProofs.lex_print_unsafe_refuted. Qed.
+Print Assumptions C10_lex_without_shape_refuted.
 
 Example C10_example :
   (* $.a[?!(@.b == 1) && (@.c || $.d) || @.e in ['x', "y"]]  ->  its string form -> the same normal form *)
   let text := [36;46;97;91;63;33;40;64;46;98;32;61;61;32;49;41;32;38;38;32;40;64;46;99;32;124;124;32;36;46;100;41;32;124;124;32;64;46;101;32;105;110;32;91;39;120;39;44;32;34;121;34;93;93]%N in
   exists q t, compile default_env (fun _ => Some true) text = Ok q /\
+              c10_domain default_env (fun _ => Some true) q = true /\
+              floats_ok q = true /\ floats_stable q = true /\
               query_text default_env q = Ok t /\
               compile default_env (fun _ => Some true) t = Ok (norm_query q) /\
               query_text default_env (norm_query q) = Ok t.
-Proof. eexists. eexists. split; [vm_compute; reflexivity|]. split; [vm_compute; reflexivity|]. split; vm_compute; reflexivity. Qed.
+Proof.
+  eexists. eexists. split; [vm_compute; reflexivity|].
+  split; [vm_compute; reflexivity|]. split; [vm_compute; reflexivity|]. split; [vm_compute; reflexivity|].
+  split; [vm_compute; reflexivity|]. split; vm_compute; reflexivity.
+Qed.
+
+(* the bare-slice spelling the lexer accepts: "$1:2 3:4" prints as "$[1:2:1][3:4:1]" and round-trips *)
+Example C10_two_bare_slices :
+  let text := [36;49;58;50;32;51;58;52]%N in
+  exists q t, compile default_env (fun _ => Some true) text = Ok q /\
+              query_text default_env q = Ok t /\
+              t = [36;91;49;58;50;58;49;93;91;51;58;52;58;49;93]%N /\
+              compile default_env (fun _ => Some true) t = Ok (norm_query q).
+Proof.
+  eexists. eexists. split; [vm_compute; reflexivity|]. split; [vm_compute; reflexivity|].
+  split; vm_compute; reflexivity.
+Qed.
